@@ -874,7 +874,8 @@ class Node:
         if msg.header.is_request and origin_host is not None:
             # Record who originally sent a request, as this information is lost
             # by the time an answer will go out
-            message_id = (f"{msg.header.hop_by_hop_identifier}:"
+            # identifiers are unique within a connection only
+            message_id = (f"{conn.ident}:{msg.header.hop_by_hop_identifier}:"
                           f"{msg.header.end_to_end_identifier}")
             self._origin_waiting_answer[message_id] = (
                 origin_host, time.time())
@@ -1067,7 +1068,7 @@ class Node:
 
     def _record_answer(self, conn: PeerConnection, message: Message):
         """Notes the end-to-end identifier of an answer, for retransmit checks."""
-        message_id = (f"{message.header.hop_by_hop_identifier}:"
+        message_id = (f"{conn.ident}:{message.header.hop_by_hop_identifier}:"
                       f"{message.header.end_to_end_identifier}")
         if message_id not in self._origin_waiting_answer:
             return
@@ -1080,7 +1081,7 @@ class Node:
         
         self._sent_answers[origin_host].append(message.header.end_to_end_identifier)
 
-        del self._origin_waiting_answer[message_id]
+        self._origin_waiting_answer.pop(message_id, None)
 
         peer = self._find_connection_peer(conn)
         if peer:
@@ -1481,6 +1482,10 @@ class Node:
             del self.socket_peers[conn.socket_fileno]
         if conn.ident in self._half_ready_connections:
             del self._half_ready_connections[conn.ident]
+        # requests of this connection that will never be answered any more
+        for message_id in list(self._origin_waiting_answer):
+            if message_id.startswith(f"{conn.ident}:"):
+                self._origin_waiting_answer.pop(message_id, None)
         peer = self._find_connection_peer(conn)
         if peer and (peer.connection is None or peer.connection is conn):
             # unset so that a new connection may be made later
